@@ -49,17 +49,25 @@ From Interval Require Import Tactic.
 From SB3V Require Import Model.Distributions Proofs.DistributionsProofs.
 Import ListNotations.
 Local Open Scope R_scope.
-Ltac unf := cbv [sumR map2 map fold_right fst snd nth combine firstn skipn length seq
+Ltac unf1 := cbv [sumR map2 map fold_right fst snd nth combine firstn skipn length seq
   sum_independent_dims gauss_logprob gauss_logpdfs gauss_entropy gauss_mode gauss_rsample normal_logpdf normal_entropy
-  squashed_logprob squashed_logprob_g squash_correction bijector_correction squashed_mode squashed_sample
-  lse cat_logprob cat_entropy softmax split_logits multicat_logprob multicat_entropy max_at
+  squashed_logprob squashed_logprob_g squash_correction squashed_mode squashed_sample
+  cat_logprob cat_entropy softmax split_logits multicat_logprob multicat_entropy max_at
   bern_logprob bern_entropy1 bernoulli_logprob bernoulli_entropy sigmoid
-  gsde_get_std gsde_variance gsde_std gsde_logpdfs gsde_logprob gsde_logprob_squashed gsde_entropy dot gsde_sample artanh].
+  gsde_get_std gsde_variance gsde_std gsde_logpdfs gsde_logprob gsde_logprob_squashed gsde_entropy dot gsde_sample].
+Ltac unf2 := cbv [sumR map fold_right lse artanh squash_correction bijector_correction].
 Ltac fix_expln := repeat match goal with |- context [expln ?e ?l] =>
    first [rewrite (proj1 (expln_cases e l)) by interval | rewrite (proj2 (expln_cases e l)) by interval] end.
 Ltac fix_clamp := repeat match goal with |- context [tanh_inverse ?f ?y] =>
    rewrite (tanh_inverse_inside f y) by (split; interval) end.
-Ltac c14 := unf; fix_expln; fix_clamp; unf; repeat split; first [apply Rle_refl | interval | interval with (i_prec 80)].
+Ltac fix_corr := repeat match goal with |- context [bijector_correction ?e (artanh ?a)] =>
+   rewrite (bijector_correction_artanh e a) by (split; interval) end.
+(* log-sum-exp occurs once per category: enclose it once and treat it as a bounded variable *)
+Ltac abs_lse := repeat match goal with |- context [lse ?l] =>
+   let L := fresh "L" in let H := fresh "HL" in
+   let e := eval cbv [lse sumR map fold_right] in (lse l) in
+   interval_intro e as H; change e with (lse l) in H; set (L := lse l) in *; clearbody L end.
+Ltac c14 := unf1; fix_expln; fix_clamp; fix_corr; abs_lse; unf2; repeat split; first [apply Rle_refl | interval | interval with (i_prec 80)].
 """
 
 FEPS = 2.220446049250313e-16  # th.finfo(float64).eps
@@ -220,10 +228,12 @@ class Out:
         self.problems = []   # (signature, message)
         self.checks = 0
 
-    ROW_CAP = 3  # quick tier: Coq goals for the first rows of a batch only (the Python oracle covers every row)
+    ROW_CAP = 2  # quick tier: Coq goals for the first rows of a batch only (the Python oracle covers every row)
+
+    HEAVY = ("gsde-logprob", "gsde-logprob-squashed", "gsde-entropy", "multicat-entropy")  # ~1-3 s each: quick tier checks one row
 
     def goal(self, label, expr, value, row=0):
-        if row >= Out.ROW_CAP:
+        if row >= Out.ROW_CAP or (Out.ROW_CAP < 99 and label in Out.HEAVY and row >= 1):
             return
         v = float(value)
         if not math.isfinite(v):
@@ -509,7 +519,7 @@ def run_gsde(c, out):
             out.check(ok, "oracle-gsde-entropy-shape", "entropy shape")
             if ok:
                 if r < 2:
-                    out.goal("gsde-entropy", f"gsde_entropy {R(eps)} {RL(x)} {cols}", ent[r].item())
+                    out.goal("gsde-entropy", f"gsde_entropy {R(eps)} {RL(x)} {cols}", ent[r].item(), r)
                 out.oracle("gsde-entropy", sum(o_normal_entropy(s) for s in sig), ent[r].item())
     want_mode = th.tanh(mean_t) if squash else mean_t
     out.check(bool(th.allclose(mode, want_mode, rtol=0, atol=1e-15)), "oracle-gsde-mode", "mode() differs from (tanh of) mean_actions")
@@ -731,8 +741,8 @@ def run_cases(cases):
 def main():
     chk = Check("C14", groups=["dist"])
     chk.build_props()
-    n_cases = 63 if chk.tier == "quick" else 1000
-    Out.ROW_CAP = 3 if chk.tier == "quick" else 99
+    n_cases = 56 if chk.tier == "quick" else 1000
+    Out.ROW_CAP = 2 if chk.tier == "quick" else 99
     cases = [dict(c) for c in FIXED_CASES]
     corpus = os.path.join(common.VERIF, "corpus", "C14.jsonl")
     if os.path.exists(corpus):
@@ -759,7 +769,7 @@ def main():
             owner.append(k)
     chk.notes["python_phase_s"] = round(_t.time() - t_py, 1)
     t_coq = _t.time()
-    failed = coq_check_goals("C14", goals, shard=45 if chk.tier == "quick" else 150, procs=4)
+    failed = coq_check_goals("C14", goals, shard=max(40, -(-len(goals) // 4)) if chk.tier == "quick" else 150, procs=4)
     chk.notes["interval_phase_s"] = round(_t.time() - t_coq, 1)
     hist = {}
     for c in cases:
